@@ -17,7 +17,8 @@
 //!       plant an unparsable key file under id 00…/ff… (listed first / last), `y0|yf` a key file whose `data` is 5 bytes,
 //!       `o<p>` open with password p, `m` open with the master key.  -> `ok <result per o/m>` (`ok` | `err:Kind`)
 //!       Password numbers: 0..9 = `pw<n>`; 10.. = a table of passwords with leading / trailing / only white space, empty, inner blank,
-//!       non-ASCII (pairwise distinct strings, several trim to another table entry) — see `password`.
+//!       non-ASCII (pairwise distinct strings, several trim to another table entry) — see `password`; 100..999 = `pw<n>` (the
+//!       many-key scripts: 21–40 key files, every added password must open whatever its key file's place in the listing).
 //!  * `initpw <p> <q,…>`    real `Repository::init` with password p, then open with each q -> `ok <result per q>`
 //!  * `scan <seed>`         oracle only (model: `ok`): backups + prune history with planted needles (names, contents, json
 //!       field names); no stored non-key file may contain a needle; all nonces (files, blobs, pack headers) pairwise distinct.
@@ -58,6 +59,12 @@ fn pick_pw(rng: &mut Rng, plain: u64) -> u64 {
         if rng.chance(1, 3) { t.unwrap_or(w) } else { w }
     } else {
         rng.below(plain)
+    }
+}
+
+fn shuffle<T>(rng: &mut Rng, v: &mut [T]) {
+    for i in (1..v.len()).rev() {
+        v.swap(i, rng.below(i as u64 + 1) as usize);
     }
 }
 
@@ -149,6 +156,63 @@ pub fn generate(thorough: bool, rng: &mut Rng, ops: &mut Vec<String>, stats: &mu
         };
         stats.hit("keys.removal-script");
         ops.push(format!("c04 keys {shape}"));
+    }
+    // MANY key files (more than any plausible "try at most N keys" bound): 21..=40 planted low-cost key files with pairwise distinct
+    // passwords; EVERY added password is tried (so also the one whose key file is listed last — listing order = order of the
+    // random key ids), then a few are removed and all are tried again, plus wrong passwords and the master key.
+    for j in 0..(if thorough { 30 } else { 4 }) {
+        let n = if j == 0 { 21 } else { 21 + rng.below(20) };
+        let base = 100 + rng.below(800);
+        let mut s: Vec<String> = (0..n).map(|i| format!("a{}", base + i)).collect();
+        if rng.chance(1, 3) {
+            // one of the passwords a second time (two key files for it) and one white-space password among them
+            s.push(format!("a{}", base + rng.below(n)));
+            s.push(format!("a{}", rng.pick(&WS_TRIMS).0));
+        }
+        let mut order: Vec<u64> = (0..n).collect();
+        shuffle(rng, &mut order);
+        s.extend(order.iter().map(|i| format!("o{}", base + i)));
+        s.push(format!("o{}", base + n));
+        s.push("m".into());
+        let removed = rng.below(4);
+        for _ in 0..removed {
+            s.push(format!("r{}", rng.below(n)));
+        }
+        if removed > 0 {
+            shuffle(rng, &mut order);
+            s.extend(order.iter().map(|i| format!("o{}", base + i)));
+        }
+        s.push(format!("o{}", pick_pw(rng, 4)));
+        stats.hit("keys.many-keys");
+        stats.add("keys.many-keys.files", n);
+        ops.push(format!("c04 keys {}", s.join(",")));
+    }
+    // thorough: REAL `add_key` beyond 20 key files (default scrypt cost: every open tries the key files in listing order until one fits)
+    if thorough {
+        for _ in 0..2 {
+            let base = 100 + rng.below(800);
+            let n = 21 + rng.below(3);
+            let mut s: Vec<String> = (0..n).map(|i| format!("A{}", base + i)).collect();
+            let mut order: Vec<u64> = (0..n).collect();
+            shuffle(rng, &mut order);
+            s.extend(order.iter().map(|i| format!("o{}", base + i)));
+            s.push(format!("o{}", base + n));
+            s.push("m".into());
+            stats.hit("keys.many-keys-real");
+            ops.push(format!("c04 keys {}", s.join(",")));
+        }
+    }
+    // a real `add_key` on top of 20..=30 planted ones, opened with its password (quick: one derivation per listed real key)
+    for _ in 0..(if thorough { 6 } else { 1 }) {
+        let base = 100 + rng.below(800);
+        let n = 20 + rng.below(11);
+        let mut s: Vec<String> = (0..n).map(|i| format!("a{}", base + i)).collect();
+        s.push(format!("A{}", base + n));
+        s.push(format!("o{}", base + n));
+        s.push(format!("o{}", base + rng.below(n)));
+        s.push(format!("o{}", base + n + 1));
+        stats.hit("keys.many-keys-one-real");
+        ops.push(format!("c04 keys {}", s.join(",")));
     }
     // REAL `add_key` / `init` (default scrypt cost, ≈ 0.4 s per derivation) with passwords that carry white space / are empty /
     // non-ASCII: exactly the added passwords open; what they trim to, and other paddings of it, do not (unless added too)
@@ -432,7 +496,7 @@ fn password(arg: &str) -> Option<String> {
         " pw1", "pw1 ", "pw1\n", "\tpw1\t", "pw1\r\n", " ", "", "\n", "pw 1", "пароль", "пароль ", "\u{a0}pw2", "pw2\u{2003}", "p\u{301}w2", "  ",
         "pw1  ",
     ];
-    if i < 10 { Some(format!("pw{i}")) } else { WS.get(i - 10).map(|s| (*s).to_string()) }
+    if i < 10 || (100..1000).contains(&i) { Some(format!("pw{i}")) } else { WS.get(i.checked_sub(10)?).map(|s| (*s).to_string()) }
 }
 /// numbers of the white-space table and, for each, the number of the password it trims to (if that one is in the table)
 const WS_TRIMS: [(u64, Option<u64>); 16] = [
